@@ -222,6 +222,13 @@ pub fn run(name: &str, args: &Args) -> Option<Report> {
                 guarded(&mut rep, name, "C11", args.seed, i, |rep| mt::c11_schedule(args.seed, i, rep, false));
             }
         }
+        "c06mt" | "c06free" => {
+            // Warm-up: lazily initialised process state must not count as a leak.
+            let free = name == "c06free";
+            for i in args.start..args.start + args.iters {
+                guarded(&mut rep, name, "C06", args.seed, i, |rep| mt::c06_drop_schedule(args.seed, i, rep, free));
+            }
+        }
         "c04free" => {
             for i in args.start..args.start + args.iters {
                 guarded(&mut rep, name, "C04", args.seed, i, |rep| mt::c04_schedule(args.seed, i, rep, true));
